@@ -11,7 +11,7 @@ LEVEL = "exploration"
 BUDGET = {"quick": 30, "thorough": 600}
 SHAPES = ["head_at_limit", "head_unterminated", "cl_at_limit", "chunked_at_limit", "cl_huge_digits", "csize_huge_digits",
           "unterminated_chunk_line", "unterminated_trailer", "mutated_message", "garbage", "long_reqline",
-          "many_small_headers", "head_at_limit_leading_crlf"]
+          "many_small_headers", "head_at_limit_leading_crlf", "long_value_bad_tail", "long_trailer_bad_tail"]
 EVIDENCE = {
     "rule": "one connection; input shape drawn from " + ", ".join(SHAPES) + "; max_request_header_size in {16..262144}, "
             "max_request_body_size in {8..1 GiB}, sizes placed at limit-2..limit+2, recv_bytes in {1,7,64,8192}, with and "
@@ -177,6 +177,20 @@ def build(sc):
         exp["statuses"] = {400, 413}
         exp["no_follower"] = True
         exp["cross_pos"] = len(stream) - (B + 50 + d) - 17 + B
+    elif shape in ("long_value_bad_tail", "long_trailer_bad_tail"):
+        # a field value of a few dozen visible characters followed by one octet that is not allowed: must be
+        # refused quickly (a backtracking pattern needs time exponential in the length)
+        n = [22, 25, 28, 33][sc["seed"] % 4]  # 33: seconds of CPU for an exponential matcher, microseconds for a linear one
+        bad = [b"\x7f", b"\x01", b"\x00", b"\x0b"][sc["seed"] % 4]
+        line = b"X-Trace: " + b"a" * n + bad
+        if shape == "long_value_bad_tail":
+            stream = b"GET /x HTTP/1.1\r\nHost: h\r\n" + line + b"\r\n\r\n"
+        else:
+            stream = b"POST /x HTTP/1.1\r\nHost: h\r\nTransfer-Encoding: chunked\r\n\r\n3\r\nabc\r\n0\r\n" + line + b"\r\n\r\n"
+        exp["may_refuse"] = True
+        exp["statuses"] = {400}
+        exp["anything"] = True
+        exp["timed"] = True
     elif shape == "garbage":
         import random
         rr = random.Random(sc["seed"])
@@ -242,11 +256,17 @@ def run_one(tapes, tier, scenario=None):
     cut = sc["cut"] % max(1, len(full))
     steps = [("send", full[:cut]), ("sleep", 0.0003), ("send", full[cut:])] if cut else [("send", full)]
     sim.add_client(steps, cid=0)
+    import time as _rt
+    t_wall = _rt.process_time()  # CPU seconds of this process: independent of how busy the machine is
     sim.run()
+    t_wall = _rt.process_time() - t_wall
 
     # ---------------------------------------------------------------- oracle
     s = sim.conns.get(0)
     wire = bytes(s.wire)
+    if t_wall > 3.0 and len(stream) < 20000:
+        # (measured CPU time, hence the generous threshold: such a run normally takes a few milliseconds)
+        res.v("hang", "slow_parse:" + sc["shape"], "handling %d bytes of input took %.1f s of CPU time: %r" % (len(stream), t_wall, stream[-80:]))
     rs, probs = parse_stream(wire, ["GET"] * 6, s.closed)
     finals = [r for r in rs if not r.interim]
     shape = sc["shape"] + (":" + exp["label"] if exp.get("label") else "")
